@@ -121,6 +121,18 @@ func (P *Prog) checkPathRender(r *Result) {
 			want = append(want, fmt.Sprintf("seg%d", i))
 		}
 		nCompared++
+		// a fast path that returns a segment (or a constant) itself instead of writing it to the builder
+		// (`case len(segments) == 2 && segments[0] == "": return segments[1]`)
+		if len(ai.out) == 0 && ai.ret.kind == "str" {
+			switch {
+			case strings.HasPrefix(ai.ret.name, "seg"):
+				if ai.ret.cls != scEmpty {
+					ai.out = []string{ai.ret.name}
+				}
+			case ai.ret.name != `""` && ai.ret.name != "":
+				ai.out = []string{ai.ret.name}
+			}
+		}
 		if strings.Join(ai.out, " ") != strings.Join(want, " ") {
 			problems = append(problems, fmt.Sprintf("segments %s are rendered as %v, expected %v", label, ai.out, want))
 		}
